@@ -133,11 +133,31 @@ func runC10(c *core.Case) *core.Result {
 		c.Count("original_vs_restored_comparisons", 1)
 		return nil
 	}
+	reexports := 0
 	for s := 0; s < sh.steps; s++ {
-		if s == snapAt {
+		again := T != nil && s > snapAt && reexports < 4 && r.Intn(9) == 0
+		if s == snapAt || again {
 			meta, snap, err := R.W.GetMetaAndSnapshot()
 			if err != nil {
 				return c.Violation(sh.typ+":export-error", "GetMetaAndSnapshot failed: %v", err)
+			}
+			if again {
+				// a later export of the same original: the restored instance has lived through the
+				// same continuation, so the two must export the same thing NOW (an export that lags
+				// behind the state - a cached encoding, a field updated on one path only - shows
+				// here), and the pair under test continues from a fresh restore of this export
+				reexports++
+				mT, sT, eT := T.W.GetMetaAndSnapshot()
+				if eT != nil {
+					return c.Violation(sh.typ+":export-error", "GetMetaAndSnapshot of the restored instance failed: %v", eT)
+				}
+				if string(mT) != string(meta) {
+					return c.Violation(sh.typ+":later-export-meta", "after the same continuation the original exports meta %s, the restored instance %s", meta, mT)
+				}
+				if a, b := canonSnapshot(sh.typ, snap), canonSnapshot(sh.typ, sT); a != b {
+					return c.Violation(sh.typ+":later-export-snapshot", "after the same continuation the original and the restored instance export different snapshots: %s vs %s", clip(a, 700), clip(b, 700))
+				}
+				c.Count("later_exports_compared", 1)
 			}
 			c.Step("r0 export (%d bytes) and import into a fresh instance", len(snap))
 			T = crdt.NewRep(0, sh.typ)
